@@ -25,7 +25,7 @@ func hostVariants(s sim.Source, host string, other string) (string, string) {
 		return sim.Pick(s, "nohost", []string{"", "a.b", "zz", "127.0.0.1", "[::1]:80", ":8080", ".", ".:443"}), "none"
 	}
 	labels := strings.Split(host, ".")
-	switch s.Intn("hostvar", 14) {
+	switch s.Intn("hostvar", 15) {
 	case 0, 1:
 		return host, "exact"
 	case 2:
@@ -54,6 +54,12 @@ func hostVariants(s sim.Source, host string, other string) (string, string) {
 			return strings.Join(labels[:len(labels)-1], "."), "truncated-label-right"
 		}
 		return "", "empty"
+	case 13:
+		// letter case: hostnames are matched byte for byte, so a Host that differs in case only is another host
+		if i := 1 + s.Intn("upperat", len(host)); i < len(host) && host[i] >= 'a' && host[i] <= 'z' {
+			return host[:i] + strings.ToUpper(host[i:i+1]) + host[i+1:], "other-letter-case"
+		}
+		return strings.ToUpper(host), "upper-case"
 	case 12:
 		if s.Intn("manycolons", 2) == 1 {
 			// not a host:port form: several colons outside brackets leave the Host as it is (it matches nothing)
